@@ -1,19 +1,30 @@
 #!/usr/bin/env python3
-"""Prints the 'as built' table of DESIGN section 8 from evidence/by_tier/*.json (what the last quick and
-thorough run of every check actually covered)."""
+"""Prints the 'what the last runs covered' table of DESIGN section 8 from evidence/by_tier/*.json; thorough
+numbers may instead be taken from the log of a `vp run` sweep (--thorough-log FILE), whose evidence files live
+in the run's own snapshot."""
 import json
+import re
+import sys
 from pathlib import Path
 
 EV = Path(__file__).resolve().parents[1] / "evidence" / "by_tier"
+LOG = {}
+if "--thorough-log" in sys.argv:
+    text = Path(sys.argv[sys.argv.index("--thorough-log") + 1]).read_text()
+    for m in re.finditer(r"\[(C\d\d)\] tier=thorough seed=\d+ states=(\d+) transitions=(\d+) .*?evaluations=(\d+) .*?violations=(\d+) known=\d+ wall=([\d.]+)s", text):
+        LOG[m.group(1)] = (int(m.group(2)), int(m.group(3)), int(m.group(4)), int(m.group(5)), float(m.group(6)))
 
 
 def cell(pid, tier):
+    if tier == "thorough" and pid in LOG:
+        s, t, e, v, w = LOG[pid]
+        return f"{s:,} states / {t:,} transitions / {e:,} evaluations, {w:.0f} s"
     f = EV / f"{pid}.{tier}.json"
     if not f.exists():
         return "-"
     e = json.loads(f.read_text())
     c = e["coverage"]
-    return f"{c.get('states', 0):,} states / {c.get('transitions', 0):,} transitions, {e['wall_s']:.0f} s"
+    return f"{c.get('states', 0):,} states / {c.get('transitions', 0):,} transitions / {c.get('evaluations', 0):,} evaluations, {e['wall_s']:.0f} s"
 
 
 print("| id | quick (last run) | thorough (last run) |\n|---|---|---|")
